@@ -958,6 +958,47 @@ package diam
 //@   end
 //@ end
 //@
+//@ # ======================= network_sctp.go: the rest of the per-stream bookkeeping (C19) =====
+//@ # the heap callbacks container/heap runs (its contract in trusted.spec says it only permutes through these)
+//@ func (*streams).Less(pq, i, j) (r)
+//@   property C19
+//@   requires pq != nil && sheapok(pq) && 0 <= i && i < len(pq.streamHeap) && 0 <= j && j < len(pq.streamHeap)
+//@ end
+//@ func (*streams).Swap(pq, i, j)
+//@   property C19
+//@   requires pq != nil && sheapok(pq) && 0 <= i && i < len(pq.streamHeap) && 0 <= j && j < len(pq.streamHeap)
+//@   requires a_buffer_is_in_the_heap_once: i != j ==> pq.streamHeap[i] != pq.streamHeap[j]
+//@   modifies pq.streamHeap[i], pq.streamHeap[j], anyfield(diam.streamBuffer.idx)
+//@   ensures [C19] exchanged: pq.streamHeap[i] == old(pq.streamHeap[j]) && pq.streamHeap[j] == old(pq.streamHeap[i])
+//@   ensures [C19] positions_recorded: pq.streamHeap[i].idx == i && pq.streamHeap[j].idx == j
+//@   ensures kept: sheapok(pq)
+//@ end
+//@ func (*streams).Pop(pq) (x)
+//@   property C19
+//@   requires pq != nil && sheapok(pq) && smapok(pq) && len(pq.streamHeap) > 0
+//@   ensures [C19] the_last_buffer_leaves_both_indexes: typeis(x, *streamBuffer) && x.(*streamBuffer) == old(pq.streamHeap[len(pq.streamHeap)-1]) &&
+//@           len(pq.streamHeap) == old(len(pq.streamHeap)) - 1 && !has(pq.streamMap, x.(*streamBuffer).stream)
+//@   ensures kept: sheapok(pq) && smapok(pq)
+//@ end
+//@ # which stream the Read / Write adaptors are pinned to
+//@ func (*SCTPConn).CurrentStream(msc) (r)
+//@   property C19
+//@   requires msc != nil && !wlocked(&msc.mu)
+//@   ensures [C19] the_pinned_stream: r == msc.currStream && !wlocked(&msc.mu)
+//@ end
+//@ func (*SCTPConn).ResetCurrentStream(msc)
+//@   property C19
+//@   requires msc != nil && !wlocked(&msc.mu)
+//@   modifies msc.currStream, wlocked(&msc.mu)
+//@   ensures [C19] unpinned: msc.currStream == InvalidStreamID && !wlocked(&msc.mu)
+//@ end
+//@ func (*SCTPConn).SetCurrentStream(msc, stream) (prev)
+//@   property C19
+//@   requires msc != nil && !wlocked(&msc.mu)
+//@   modifies msc.currStream, wlocked(&msc.mu)
+//@   ensures [C19] pinned: msc.currStream == stream && prev == old(msc.currStream) && !wlocked(&msc.mu)
+//@ end
+//@
 //@ # ======================= inspection of decoded messages (C03) ==============
 //@ # "neither decoding nor any later inspection of a decoded message (string rendering, pretty dump, ...) panics":
 //@ # every rendering function is swept for run-time panics under the precondition that the tree is one the decoders
